@@ -194,7 +194,7 @@ func keys() error {
 // None with certificate and key and takes policy and mode from the client's OpenSecureChannel request.
 func chanCfg(mode int, server bool) *uasc.Config {
 	cfg := &uasc.Config{SecurityPolicyURI: ua.SecurityPolicyURINone, SecurityMode: ua.MessageSecurityModeNone,
-		Lifetime: 3600000, RequestTimeout: 1500 * time.Millisecond}
+		Lifetime: 3600000, RequestTimeout: dl(1500 * time.Millisecond)}
 	if mode <= 1 {
 		return cfg
 	}
@@ -239,7 +239,7 @@ var reqBase, respBase int
 
 // runExchange performs one connection + one exchange and fills the observations in.
 func runExchange(cs *c06case) {
-	ctx, cancel := context.WithTimeout(context.Background(), 8*time.Second)
+	ctx, cancel := context.WithTimeout(context.Background(), dl(8*time.Second))
 	defer cancel()
 
 	l, err := uacp.Listen(ctx, "opc.tcp://127.0.0.1:0", cs.Server.ack())
@@ -344,7 +344,7 @@ func runExchange(cs *c06case) {
 			return
 		}
 		defer sc.Close()
-		err = sc.SendRequestWithTimeout(ctx, mkRequest(reqPad, cs.RespMsg), nil, 1500*time.Millisecond, func(r ua.Response) error {
+		err = sc.SendRequestWithTimeout(ctx, mkRequest(reqPad, cs.RespMsg), nil, dl(1500*time.Millisecond), func(r ua.Response) error {
 			rr, ok := r.(*ua.ReadResponse)
 			if ok && len(rr.Results) == 1 && rr.Results[0].Value != nil {
 				if b, ok := rr.Results[0].Value.Value().([]byte); ok && len(b) == respPad {
@@ -360,7 +360,7 @@ func runExchange(cs *c06case) {
 	l.Close()
 	select {
 	case <-srvDone:
-	case <-time.After(3 * time.Second):
+	case <-time.After(dl(3 * time.Second)):
 	}
 	p.ln.Close()
 	time.Sleep(2 * time.Millisecond)
@@ -454,8 +454,15 @@ func calibrate() error {
 	}
 	respBase = n
 	// check the prediction against the wire once, with default limits
-	cs := &c06case{Client: lim{65535, 65535, 0, 0}, Server: lim{65535, 65535, 2097152, 512}, ReqMsg: reqBase + 99, RespMsg: respBase + 999}
-	runExchange(cs)
+	var cs *c06case
+	for attempt := 0; attempt < 4; attempt++ { // a loaded machine may need longer deadlines: never a verdict on the code
+		cs = &c06case{Mode: 1, Client: lim{65535, 65535, 0, 0}, Server: lim{65535, 65535, 2097152, 512}, ReqMsg: reqBase + 99, RespMsg: respBase + 999}
+		runExchange(cs)
+		if cs.ReqArrived && cs.RespArrived {
+			break
+		}
+		scale *= 2
+	}
 	if !cs.ReqArrived || !cs.RespArrived || cs.ReqOnWire != cs.ReqMsg || cs.RespOnWire != cs.RespMsg {
 		b, _ := json.Marshal(cs)
 		return fmt.Errorf("calibration exchange failed (predicted sizes %d/%d): %s", cs.ReqMsg, cs.RespMsg, b)
@@ -621,7 +628,7 @@ func c06(seed uint64, n int, casesFile string) {
 		}
 	}
 	// run with bounded parallelism; print in order
-	sem := make(chan struct{}, 12)
+	sem := make(chan struct{}, max(par, 1))
 	var wg sync.WaitGroup
 	for _, cs := range cases {
 		wg.Add(1)
